@@ -251,7 +251,14 @@ def rule_reader_state(ctx):
     C11.rule_R1(R.Retag(ctx, "C11."), only=("TlsClientHelloReader",))
 
 
+def rule_twins(ctx):
+    """the IPv4 and IPv6 copies of the per-packet functions route sides, roles and lookups identically (shared rule TW)"""
+    from . import _twins as TW
+    TW.twin_agreement(ctx, ctx.program, "TW", ("huginn_net_tcp", "huginn_net_http", "huginn_net_tls"))
+
+
 def run(ctx):
+    rule_twins(ctx)
     rule_reader_state(ctx)
     rule_capture_loops(ctx)
     rule_worker_capacity(ctx)
